@@ -6,6 +6,18 @@
 #include "hist.h"
 
 struct cds_lfq_queue_rcu Q;
+/* typed static pool behind malloc/free (stub_map): every unwinding copy of make_dummy would otherwise be a separate CBMC heap object.
+ * free poisons the entry and checks single ownership; a later use of the poisoned links is a wild dereference that CBMC reports. */
+#define NPOOL 5
+struct cds_lfq_node_rcu_dummy POOL[NPOOL];
+void *my_malloc(size_t sz) { int k = (int)rt_gget(63); rt_assert(k < NPOOL && sz == sizeof(struct cds_lfq_node_rcu_dummy), "dummy pool large enough"); rt_gset(63, k + 1); return &POOL[k]; }
+void my_free(void *p) {
+  int i = -1; for (int k = 0; k < NPOOL; k++) if (p == (void *)&POOL[k]) i = k;
+  rt_assert(i >= 0, "free() of a pointer that malloc() did not return");
+  rt_assert(!((rt_gget(61) >> i) & 1), "double free of a dummy node");
+  rt_gset(61, rt_gget(61) | (1u << i));
+  POOL[i].parent.next = (struct cds_lfq_node_rcu *)0x5a5a0; POOL[i].parent.dummy = 0x5a; POOL[i].q = (struct cds_lfq_queue_rcu *)0x5a5a8;
+}
 struct cds_lfq_node_rcu N[H_NN];
 struct rcu_head *PEND[6]; void (*PFN[6])(struct rcu_head *);
 /* harness call_rcu: the callback runs after a grace period = in the epilogue, when every (ghost) read-side section has ended.
@@ -43,4 +55,5 @@ void epilogue(void) {
   for (int k = 0; k < 6; k++) if (k < np) PFN[k](PEND[k]);
   rt_cover(np >= 1, "a dummy node was retired through call_rcu");
   rt_assert(cds_lfq_destroy_rcu(&Q) == 0, "destroy succeeds on an empty queue");
+  rt_assert(rt_gget(61) == (1u << rt_gget(63)) - 1, "every dummy node ever allocated has been freed exactly once (retired ones by their callback, the last by destroy)");
 }
